@@ -1,7 +1,7 @@
 (* Extraction of the executable model. ExtrOcamlBasic only; N/Z/positive/nat stay inductive. *)
 From Coq Require Extraction ExtrOcamlBasic.
 From Base Require Import PyStr.
-From Model Require Import Wrap RxPort Tags LineWrap Frontmatter FsOps Cli.
+From Model Require Import Wrap RxPort Tags LineWrap Frontmatter FsOps Cli Typography.
 
 Extraction Language OCaml.
 Extraction "model.ml"
@@ -15,4 +15,5 @@ Extraction "model.ml"
   split_sentences_regex split_markdown_hard_breaks fill_text
   split_frontmatter fill_markdown_fm
   run_prog target_okb
-  main_run merge_fields find_config.
+  main_run merge_fields find_config
+  smart_quotes ellipses.
